@@ -183,6 +183,27 @@ Example C10_dust_boundary :
   observe 1 (1000 + 1130 + 2) = (FOk true, 2%nat, 2, 1130, FOk (mkSize 226 226 0)).
 Proof. split; vm_compute; reflexivity. Qed.
 
+(** the SECOND boundary of the output-count varint: the 65536th output makes the count five bytes long instead of
+    three (and the outputs before and after it change nothing); Tx.change charges UpperLimitInc = 2 there, and the
+    fee theorems above - stated for every transaction - cover it.  Transactions of that size cannot be pushed through
+    the byte-level parser inside Coq (Tx.Clone), so the correspondence evaluates them with [change_direct]
+    (proofs/ChangeDirect.v), which is the same function under two boolean guards evaluated on the case: *)
+From GoBT Require Import proofs.ChangeDirect.
+Theorem C10_count_varint_second_boundary : forall t o, N.of_nat (length (tx_outs t)) = 65535 ->
+  tx_size (add_output t o) = tx_size t + lenN (output_bytes o) + 2.
+Proof. exact tx_size_growth_at_65535. Qed.
+Print Assumptions C10_count_varint_second_boundary.
+
+Theorem C10_count_varint_beside_second_boundary : forall t o,
+  N.of_nat (length (tx_outs t)) = 65534 \/ N.of_nat (length (tx_outs t)) = 65536 ->
+  tx_size (add_output t o) = tx_size t + lenN (output_bytes o).
+Proof. exact tx_size_no_growth_beside_65535. Qed.
+Print Assumptions C10_count_varint_beside_second_boundary.
+
+Theorem C10_change_direct_agrees : forall t q dest, guard t = true -> change t q dest = change_direct t q dest.
+Proof. exact change_direct_eq. Qed.
+Print Assumptions C10_change_direct_agrees.
+
 (** State inventory (tie, translator part): every Go struct the model of this property represents has, in the
     source as it is NOW (gen/Structs.v, regenerated on every run), exactly the fields - names, types, order - the
     model was written against (model/StateInventory.v).  New state in these objects (a memoised digest, a cached
